@@ -274,6 +274,8 @@ static void life_case(uint64_t idx)
 
 /* ---------------------------------------------------------------- C16 */
 static uint8_t *noaccess_page;
+static int cold;      /* --mode c16cold: every case is a freshly forked process in which no library function has run yet; the failing
+                         allocation is the k-th request of the process's very first init (no dry run, no bystander object) */
 static void *volatile ctl_sink;
 static uint8_t decoy[8192];
 
@@ -282,7 +284,7 @@ static void c16_case(uint64_t idx)
     /* enumeration: init function (3 ctr + 3 parallel) x back end x allocation request x prior class; idx / span = repetition */
     vh_rng r; unsigned fn = (unsigned)(idx % 6), ci = fn % 3, par = fn / 3;
     const vh_cipher *c = &vh_ciphers[ci];
-    unsigned nbe = (unsigned)maxbe[ci] + 1, be = (unsigned)((idx / 6) % 3), cls = (unsigned)((idx / 18) % 6);
+    unsigned nbe = cold ? 3 : (unsigned)maxbe[ci] + 1, be = (unsigned)((idx / 6) % 3), cls = cold ? (unsigned)((idx / 18) % 4) : (unsigned)((idx / 18) % 6);
     vh_handle A, B, live_copy; long nreq, k; int ret; char d[400], key[300], nm[120];
     uint8_t bkey[16], bctr[16], bin[64], z[64], ob1[64], ob2[64];
     int c14 = !strcmp(prop, "C14");
@@ -296,7 +298,9 @@ static void c16_case(uint64_t idx)
     am_release_all(); am_hard_reset();
     am_set_min_align(((idx / 108) & 1) ? 8 : 16);       /* every second sweep: an allocator that only guarantees 8-byte alignment */
     vh_set_cap((int)be);
+    memset(&live_copy, 0, sizeof(live_copy)); memset(&B, 0, sizeof(B)); memset(ob1, 0, sizeof(ob1));
     memset(z, 0, sizeof(z)); vh_rand_bytes(&r, bkey, 16); vh_rand_bytes(&r, bctr, 16); vh_rand_bytes(&r, bin, 64);
+    if (!cold) {
     /* bystander object B, live and keyed, must be unaffected */
     memset(&B, 0, sizeof(B));
     am_mark(1, -1);
@@ -311,7 +315,8 @@ static void c16_case(uint64_t idx)
     live_copy = A;
     VH_MAXC("max_allocation_requests_per_init", nreq);
     vh_call_begin("cleanup(dry-run)"); if (par) c->par_cleanup(&A); else c->ctr_cleanup(&A); vh_call_end();
-    for (k = 1; k <= nreq; ++k) {
+    } else { nreq = 1 + (long)((idx / 72) % 3); }
+    for (k = cold ? nreq : 1; k <= nreq; ++k) {
         const am_event *ev; int nev, e, i; long w;
         const char *bad = NULL; int rets[14], nr = 0;
         /* prior contents of the caller's handle */
@@ -330,7 +335,13 @@ static void c16_case(uint64_t idx)
         am_set_fail_at(k);
         snprintf(key, sizeof(key), "%s:%s:init-with-failing-allocation", c14 ? "C14" : "C16", nm); vh_set_crash_key(key);
         vh_call_begin("init(allocation fails)"); ret = par ? c->par_init(&A) : c->ctr_init(&A); vh_call_end();
+        if (cold && am_requests() < k) {        /* the init made fewer requests than k: no fault was injected */
+            am_set_fail_at(-1); VH_COUNT("cold_cases_beyond_the_last_request", 1);
+            if (ret) { if (par) c->par_cleanup(&A); else c->ctr_cleanup(&A); }
+            return;
+        }
         am_set_fail_at(-1);
+        if (cold) VH_COUNT("cold_process_fault_cases", 1);
         VH_COUNT("fault_cases", 1);
         { char cn[96]; snprintf(cn, sizeof(cn), "faults_%s%s_%s", c->name, par ? "-parallel" : "", vh_backend_names[be]); *vh_counter_ref(cn) += 1; }
         if (ret != 0) bad = "init-did-not-return-0";
@@ -385,7 +396,7 @@ static void c16_case(uint64_t idx)
         { const am_block *bl; int nb, b; bl = am_blocks(&nb); for (b = 0; b < nb && !bad; ++b) if (bl[b].live && bl[b].obj == 0) bad = "block-leaked-by-failed-init"; }
         for (w = 0; w < (long)sizeof(decoy) && !bad; ++w) if (decoy[w] != (uint8_t)(0x5A ^ (w * 13))) bad = "stale-context-written";
         /* bystander */
-        if (!bad) {
+        if (!bad && !cold) {
             am_mark(1, -1);
             if (par) c->par_encrypt(ob2, bin, bin + 32, c->bb * 2, &B);
             else { c->ctr_set_counter(&B, bctr, c->bb); c->ctr_encrypt(ob2, z, 40, &B); }
@@ -400,7 +411,7 @@ static void c16_case(uint64_t idx)
         if (vh_distinct(vh_hash(nm, strlen(nm), (uint64_t)k))) VH_COUNT("distinct_fault_points", 1);
     }
     am_mark(1, -1);
-    if (par) c->par_cleanup(&B); else c->ctr_cleanup(&B);
+    if (!cold) { if (par) c->par_cleanup(&B); else c->ctr_cleanup(&B); }
 }
 
 /* --starve 1: a resource-starved process.  RLIMIT_MEMLOCK is zero and mlock/mlock2/mlockall fail with ENOMEM (seccomp), as for an
@@ -452,6 +463,9 @@ int main(int argc, char **argv)
     ro_guard = !strcmp(prop, "C18");
     vh_ro_inert_cleanup = !strcmp(prop, "C15");
     noaccess_page = mmap(NULL, 8192, PROT_NONE, MAP_PRIVATE | MAP_ANONYMOUS, -1, 0);
+    cold = !strcmp(vh_arg_mode, "c16cold");
+    if (cold) { maxbe[0] = 2; maxbe[1] = 1; maxbe[2] = 1; vh_fork_each_case = 1; }     /* no library call may happen in this (parent) process */
+    else
     for (i = 0; i < CIPH_N; ++i) { maxbe[i] = vh_max_backend(&vh_ciphers[i]); if (maxbe[i] < 0) { printf("{\"type\":\"inconclusive\",\"reason\":\"cannot identify back end\"}\n"); return 2; } }
     {   /* positive controls for the monitor itself: a leak, a double free and a dirty free must be seen */
         void *p;
@@ -465,7 +479,7 @@ int main(int argc, char **argv)
         }
         am_release_all(); am_hard_reset();
     }
-    if (!strcmp(vh_arg_mode, "c16")) vh_run(c16_case); else vh_run(life_case);
+    if (!strcmp(vh_arg_mode, "c16") || cold) vh_run(c16_case); else vh_run(life_case);
     vh_finish();
     return 0;
 }
